@@ -5,6 +5,7 @@ package messageview
 import (
 	"bytes"
 	"io/ioutil"
+	"net/http"
 	"strings"
 
 	"github.com/google/martian/v3/zzverif/msg"
@@ -36,31 +37,39 @@ func VerifC15Snapshot() {
 		mv.SkipBodyUnlessContentType("text/")
 	}
 	skip := opt == 1 || (opt == 2 && !strings.HasPrefix(ct, "text/"))
-	spec := msg.Spec{Framing: framing, Wire: wire, Trailers: trailers, Encoding: enc, ContentType: ct}
+	// trailers either set on the message up front, or (as for a message parsed from the wire)
+	// declared up front and filled in when the body reaches its end
+	late := trailers && !skip && vf.Choice("trailer-values-arrive-with-end-of-body", 2) == 1
+	spec := msg.Spec{Framing: framing, Wire: wire, Trailers: trailers, LateTrailers: late, Encoding: enc, ContentType: ct}
+	final := http.Header{"X-Trailer": {"t1"}} // what the trailers are once the body has been read
 
 	var head, body, trailer []byte
 	req, _ := msg.NewRequest(spec)
 	if isReq {
-		st := msg.Capture(req.Header, req.Trailer, req.ContentLength, req.TransferEncoding, req.Close, wire)
+		tr := req.Trailer
+		if late {
+			tr = final
+		}
+		st := msg.Capture(req.Header, tr, req.ContentLength, req.TransferEncoding, req.Close, wire)
 		vf.Assert(mv.SnapshotRequest(req) == nil, "snapshot-succeeds")
 		st.Unchanged(req.Header, req.Trailer, req.ContentLength, req.TransferEncoding, req.Close, req.Body, "request-after-snapshot")
 		head, body, trailer = msg.ReferenceRequest(req, wire, !skip)
 	} else {
 		res, _ := msg.NewResponse(spec, req)
-		st := msg.Capture(res.Header, res.Trailer, res.ContentLength, res.TransferEncoding, res.Close, wire)
+		tr := res.Trailer
+		if late {
+			tr = final
+		}
+		st := msg.Capture(res.Header, tr, res.ContentLength, res.TransferEncoding, res.Close, wire)
 		vf.Assert(mv.SnapshotResponse(res) == nil, "snapshot-succeeds")
 		st.Unchanged(res.Header, res.Trailer, res.ContentLength, res.TransferEncoding, res.Close, res.Body, "response-after-snapshot")
 		head, body, trailer = msg.ReferenceResponse(res, wire, !skip)
 	}
 
-	// Known finding: with declared trailers the snapshot lacks the empty line
-	// that terminates the trailer part (the existing tests pin those bytes).
-	vf.Known("C15-trailer-terminator", trailers && !skip)
 	r, err := mv.Reader()
 	vf.Assert(err == nil, "reader")
 	all, _ := ioutil.ReadAll(r)
 	want := append(append(append([]byte(nil), head...), body...), trailer...)
-	vf.Assert(bytes.Equal(all, want), "snapshot-equals-the-message")
 	hb, _ := ioutil.ReadAll(mv.HeaderReader())
 	vf.Assert(bytes.Equal(hb, head), "header-reader-yields-the-head")
 	br, err := mv.BodyReader()
@@ -68,6 +77,17 @@ func VerifC15Snapshot() {
 	bb, _ := ioutil.ReadAll(br)
 	vf.Assert(bytes.Equal(bb, body), "body-reader-yields-the-framed-body")
 	tb, _ := ioutil.ReadAll(mv.TrailerReader())
+	// Known finding: with declared trailers the snapshot lacks the empty line that terminates
+	// the trailer part (the existing tests pin those bytes). Everything else is checked outside
+	// the known region, against the reference with exactly that line removed, so that any other
+	// deviation in a message with trailers is still reported.
+	if trailers && !skip {
+		cut := func(b []byte) []byte { return bytes.TrimSuffix(b, []byte("\r\n")) }
+		vf.Assert(bytes.Equal(all, want) || bytes.Equal(all, cut(want)), "snapshot-equals-the-message")
+		vf.Assert(bytes.Equal(tb, trailer) || bytes.Equal(tb, cut(trailer)), "trailer-reader-yields-the-trailer-part")
+		vf.Known("C15-trailer-terminator", true)
+	}
+	vf.Assert(bytes.Equal(all, want), "snapshot-equals-the-message")
 	vf.Assert(bytes.Equal(tb, trailer), "trailer-reader-yields-the-trailer-part")
 	vf.KnownClear("C15-trailer-terminator")
 
